@@ -188,7 +188,7 @@ def install_loop_rule(it):
                     spec.install(it, env, k)
                 else:
                     spec.havoc(it, env)
-                    for nm, g in spec.inv(it, env, k):
+                    for nm, g in (spec.inv_assume(it, env, k) if hasattr(spec, 'inv_assume') else spec.inv(it, env, k)):
                         ctx.assume(g)
                 if is_for:
                     seq = iterable
@@ -203,8 +203,11 @@ def install_loop_rule(it):
                 from .values import BreakEx, ContinueEx
                 broke = False
                 try:
-                    for _ in it.exec_block(st.body, env, module):
-                        raise Unsupported('yield inside a cut loop')
+                    for yv in it.exec_block(st.body, env, module):
+                        if hasattr(spec, 'on_yield'):
+                            spec.on_yield(it, env, yv)
+                        else:
+                            raise Unsupported('yield inside a cut loop')
                 except ContinueEx:
                     pass
                 except BreakEx:
@@ -220,13 +223,13 @@ def install_loop_rule(it):
                 elif is_for:
                     spec.havoc(it, env)
                     n = iterable.n
-                    for nm, g in spec.inv(it, env, n):
+                    for nm, g in (spec.inv_assume(it, env, n) if hasattr(spec, 'inv_assume') else spec.inv(it, env, n)):
                         ctx.assume(g)
                 else:
                     spec.havoc(it, env)
                     k = ctx.fresh(z3.IntSort(), 'kexit')
                     ctx.assume(k >= 0)
-                    for nm, g in spec.inv(it, env, k):
+                    for nm, g in (spec.inv_assume(it, env, k) if hasattr(spec, 'inv_assume') else spec.inv(it, env, k)):
                         ctx.assume(g)
                     c = it.truth(it.eval(st.test, env, module))
                     ctx.assume(z3.Not(it.as_bool_term(c)) if not isinstance(c, bool) else (not c))
